@@ -1,9 +1,79 @@
 import ALV.Common.Json
+import ALV.Model.C16
+import ALV.Model.C16Gen
+import ALV.Spec.C16
 namespace ALV.Driver.C16
-open ALV ALV.J
+open ALV ALV.J ALV.C16
 
-/-- stub: the C16 slice is not built yet -/
-def handle (entry : String) (_j : Json) : Except String Json :=
-  throw s!"C16: unknown entry {entry}"
+/-- second item type: finite sequences under concatenation (Python tuples) — a `+` that is not
+    commutative, so the ORDER in which the playing events are summed is visible -/
+structure Seq where
+  items : List Int
+instance : Add Seq := ⟨fun a b => ⟨a.items ++ b.items⟩⟩
+
+def obsJson {α : Type} (toJ : α → Json) : Obs α → Json
+  | .ok => Json.str "ok"
+  | .valueError => Json.mkObj [("err", Json.str "ValueError")]
+  | .out v k => Json.mkObj [("out", toJ v), ("started", natToJson k)]
+  | .stop => Json.str "stop"
+
+def getOp {α : Type} (getItem : Json → Except String α) (j : Json) : Except String (Op α) := do
+  let op ← getStr (← field j "op")
+  match op with
+  | "add" =>
+    let d ← getRat (← field j "delta")
+    let xs ← getList getItem (← field j "data")
+    pure (.add d xs)
+  | "next" => pure .next
+  | "keep" => pure (.setKeep (← getBool (← field j "v")))
+  | _ => throw s!"C16: unknown op {op}"
+
+def getCOp (j : Json) : Except String (COp Json) := do
+  let op ← getStr (← field j "op")
+  match op with
+  | "set" => pure (.set (← field j "v"))
+  | "read" => pure .read
+  | _ => throw s!"C16: unknown control op {op}"
+
+/-- a read shows `{"v": value}`, an assignment shows `null` -/
+def rd (v : Json) : Json := Json.mkObj [("v", v)]
+
+/-- a history on one Streamix: after every operation the generator-level model's observation with
+    the sizes of `_not_playing` / `_playing` and the frame's local `count` whenever the generator
+    is suspended at the yield; the fused machine's and the spec's observations; at the end the
+    spec's log (start of every accepted event). -/
+def runStreamix {α : Type} [Add α] (getItem : Json → Except String α) (toJ : α → Json)
+    (zero : α) (j : Json) : Except String Json := do
+  let keep ← getBool (fieldD j "keep" (Json.bool false))
+  let ops ← getList (getOp getItem) (← field j "ops")
+  let tr := ptrace zero (PState.init keep : PState α) ops
+  let m := tr.map fun (st, o) =>
+    let cnt := if st.suspended && !st.ended then ratToJson st.count else Json.null
+    Json.arr [obsJson toJ o, natToJson st.notPlaying.length, natToJson st.playing.length, cnt]
+  let mr := mrun zero (MState.init keep : MState α) ops
+  let sr := srun zero (SState.init keep : SState α) ops
+  pure <| Json.mkObj [
+    ("model", Json.arr m),
+    ("fused", arr (obsJson toJ) mr.2),
+    ("spec", arr (obsJson toJ) sr.2),
+    ("starts", nats (sr.1.evs.map (·.start))),
+    ("n", natToJson sr.1.n),
+    ("length", natToJson (mixLength sr.1.evs))]
+
+def handle (entry : String) (j : Json) : Except String Json := do
+  match entry with
+  | "streamix" =>
+    let zero ← getRat (fieldD j "zero" (Json.int 0))
+    runStreamix getRat ratToJson zero j
+  | "streamix_seq" =>          -- items are one-element tuples, zero a tuple, `+` is concatenation
+    let zero ← getList getInt (fieldD j "zero" (Json.arr []))
+    runStreamix (fun x => do pure (⟨[← getInt x]⟩ : Seq)) (fun (v : Seq) => ints v.items) ⟨zero⟩ j
+  | "control" =>
+    let init ← field j "init"
+    let ops ← getList getCOp (← field j "ops")
+    pure <| Json.mkObj [
+      ("model", arr (optJson rd) (crun init ops)),
+      ("spec", arr (optJson rd) (cspec init ops))]
+  | _ => throw s!"C16: unknown entry {entry}"
 
 end ALV.Driver.C16
